@@ -23,6 +23,8 @@ def tests():
     return ok1, ok2, out.strip(), out2.strip()
 
 order = sorted(glob.glob(ROOT + "/fixes/*.diff"))
+if os.environ.get("FIXES_ONLY"):   # restrict to the named diffs, in the given order
+    order = [ROOT + "/fixes/" + n for n in os.environ["FIXES_ONLY"].split(",") if n]
 # dependent pairs: N04 before N06
 applied = json.load(open(ROOT + "/fixes/APPLIED.json")) if os.path.exists(ROOT + "/fixes/APPLIED.json") else {}
 for path in order:
